@@ -139,6 +139,40 @@ func TestVerifC05(t *testing.T) {
 			probeAll(secs, off)
 		})
 	}
+	// sections 4 GiB and more above the kernel offset: the frame is (addr - off) >> 12 in 64 bits
+	for v := 0; v < 3; v++ {
+		v := v
+		bcase("b-far-sections", func() {
+			g.refill(70)
+			o := []uint64{off, 0, 0x40000000}[v]
+			secs := []uint64{
+				5, o + 1<<32 - 4096, 4096,
+				3, o + 1<<32, 2*4096 + 1,
+				1, o + 1<<32 + 0x100000 + 0x10, 100,
+				7, o + 1<<40, 4096,
+				2, o + 3<<32 + 0x5000, 4097,
+				4, o + 0x100000, 4096,
+			}
+			g.do("secs", secs...)
+			g.do("setup", o)
+			probeAll(secs, o)
+		})
+	}
+	// a section whose Map fails for lack of a frame, while the copy of a reserved page afterwards needs
+	// no new table (it shares the leaf table with an earlier section) and succeeds: the error must
+	// still be returned and the half-built table must not be activated
+	for k := 3; k <= 6; k++ {
+		k := k
+		bcase("b-section-fails-copy-succeeds", func() {
+			g.refill(12)
+			g.do("region", 700, 4096, 3) // also creates the temporary mapping's tables in the boot space
+			g.refill(k)                  // new root + the three tables of the first section (+ k-4 more)
+			secs := []uint64{1, vmPage(510, 511, 511, 5) << 12, 4096, 3, off + 0x100000, 4096, 5, off + 0x40000000, 4096}
+			g.do("secs", secs...)
+			g.do("setup", off)
+			probeAll(secs, off)
+		})
+	}
 	// many sections: every in-range one must be mapped, whatever their number
 	for _, cnt := range []int{16, 17, 20, 40} {
 		cnt := cnt
@@ -306,8 +340,17 @@ func TestVerifC05(t *testing.T) {
 			o, base, exact = 0, 0, true
 		case 6:
 			o, base, exact = 0x40000000, 0x40000000, true
+		case 7: // 4 GiB and more above the offset
+			base = o + uint64(r.pick(1, 1, 2, 3, 256))<<32 - uint64(r.intn(3))<<12
 		}
 		secs := g.sectionsAt(base, r.intn(7), 40, r.chance(6), exact)
+		if r.chance(12) { // far-away sections in addition
+			far := g.sections(o+uint64(r.pick(1, 2, 5, 256))<<32+uint64(r.intn(1<<10))<<12, r.between(1, 2), 3, false)
+			secs = append(secs, far...)
+		}
+		if o == off && r.chance(15) { // a section that shares its leaf table with the reserved pages
+			secs = append([]uint64{uint64(r.intn(8)), vmPage(510, 511, 511, uint64(r.intn(100))) << 12, uint64(1 + r.intn(4096))}, secs...)
+		}
 		if exact && len(secs) == 0 {
 			secs = []uint64{uint64(r.intn(8)), base, uint64(1 + r.intn(3*4096))}
 		}
@@ -322,7 +365,7 @@ func TestVerifC05(t *testing.T) {
 			}
 		}
 		g.do("secs", secs...)
-		if r.chance(25) { // allocator failure somewhere on the way
+		if r.chance(30) { // allocator failure somewhere on the way
 			g.refill(r.intn(14))
 		}
 		if r.chance(3) {
